@@ -570,6 +570,50 @@ example :
     (by decide) (by decide +kernel) (noEarly_bash _ (by decide)) (by decide)
   exact ⟨s', h1, h2, by simpa [accepted, s] using h3, h4⟩
 
+/-- two commands in a row on dash (`true`, status 0, no output; then `false`, status 1): the
+    answers of both are in the script, each `exec` consumes exactly its own -/
+example :
+    let c1 : Cmd := { line := [116, 114, 117, 101], out := [], st := 0,
+                      sc1 := toScript (cutBy [1, 1, 9] (respCmd false Params.ashPrompt [116, 114, 117, 101] [])),
+                      sc2 := toScript (cutBy [20] (respStatus false Params.ashPrompt 0)) }
+    let c2 : Cmd := { line := [102, 97, 108, 115, 101], out := [], st := 1,
+                      sc1 := toScript (cutBy [] (respCmd false Params.ashPrompt [102, 97, 108, 115, 101] [])),
+                      sc2 := toScript (cutBy [3, 3, 3] (respStatus false Params.ashPrompt 1)) }
+    let s : St := { chunk := 7, prompt := some (.lit Params.ashPrompt), blacklist := Params.ashBlacklist,
+                    script := c1.sc1 ++ c1.sc2 ++ (c2.sc1 ++ c2.sc2) }
+    ∃ s', execSeq [c1.line, c2.line] s = ([.ok (0, []), .ok (1, [])], s') ∧ s'.script = [] := by
+  intro c1 c2 s
+  have ok1 : c1.Ok Params.ashPrompt s.blacklist :=
+    ⟨wf_toScript _ _, wf_toScript _ _, by rw [flat_toScript, cutBy_flatten], by rw [flat_toScript, cutBy_flatten],
+     by decide, noEarly_of_head 84 _ (Tty.cook []) (by decide), by decide⟩
+  have ok2 : c2.Ok Params.ashPrompt s.blacklist :=
+    ⟨wf_toScript _ _, wf_toScript _ _, by rw [flat_toScript, cutBy_flatten], by rw [flat_toScript, cutBy_flatten],
+     by decide, noEarly_of_head 84 _ (Tty.cook []) (by decide), by decide⟩
+  obtain ⟨s', h1, h2, _⟩ := execSeq_exact Params.ashPrompt promptOk_ash [c1, c2] s []
+    ⟨rfl, rfl, rfl, rfl, by decide, by decide, by intro h; simp [s] at h⟩
+    (by intro c hc
+        simp only [List.mem_cons, List.not_mem_nil, or_false] at hc
+        rcases hc with rfl | rfl
+        · exact ok1
+        · exact ok2)
+    (by decide +kernel) (by simp [s])
+  exact ⟨s', h1, h2⟩
+
+/-- a case of the check (`echo 'a b' '$x'` through `exec0` on bash, chunk size 5, the first answer
+    — 48 bytes — delivered as 10·20·18, the second as 7·rest) satisfies `CaseOk` -/
+example :
+    let cmd : ShCmd := { op := .exec0, pre := [[101, 99, 104, 111]], args := [[97, 32, 98], [36, 120]],
+                         out := [97, 32, 98, 32, 36, 120, 10], status := 0 }
+    let c : ShCase := { ash := false, chunk := 5, cmds := [cmd] }
+    Spec.C01 c (Shell.run c [[10, 20, 18] ++ [7, 100]]) = true := by
+  intro cmd c
+  refine spec_holds c _ ⟨by decide, rfl, ?_⟩
+  intro x hx
+  simp only [c, List.zip_cons_cons, List.zip_nil_right, List.mem_singleton] at hx
+  subst hx
+  refine ⟨by decide, noEarly_bash _ (by decide), [10, 20, 18], [7, 100], ?_⟩
+  exact cutBy_boundary _ _ _ _ (by decide +kernel)
+
 /-- NO-EARLY-PROMPT is needed: prompt "$ ", a program that prints "$ " (status 0), and a
     transport that happens to deliver exactly that in one piece — `exec` takes the program's
     output for the prompt and returns the empty output (the left-over prompt is then swallowed
